@@ -17,6 +17,7 @@ type apiCall struct {
 	Kind string // add spawn runcycle run reset getwarrior getmem
 	W    int    // warrior template (add) or warrior index (spawn, getwarrior)
 	Off  int    // offset (spawn) or address (getmem)
+	Huge uint64 // when non-zero: the offset / address as a full unsigned 64-bit number (overrides Off)
 }
 
 func (a apiCall) String() string {
@@ -24,10 +25,16 @@ func (a apiCall) String() string {
 	case "add":
 		return fmt.Sprintf("AddWarrior(w%d)", a.W)
 	case "spawn":
+		if a.Huge != 0 {
+			return fmt.Sprintf("SpawnWarrior(%d,%d)", a.W, a.Huge)
+		}
 		return fmt.Sprintf("SpawnWarrior(%d,%d)", a.W, a.Off)
 	case "getwarrior":
 		return fmt.Sprintf("GetWarrior(%d)", a.W)
 	case "getmem":
+		if a.Huge != 0 {
+			return fmt.Sprintf("GetMem(%d)", a.Huge)
+		}
 		return fmt.Sprintf("GetMem(%d)", a.Off)
 	case "runcycle":
 		return "RunCycle()"
@@ -152,8 +159,12 @@ func (r *apiRunner) apply(call apiCall) (d string) {
 		r.handles = append(r.handles, w)
 		ref.Add(t)
 	case "spawn":
-		merr := ref.Spawn(call.W, call.Off)
-		err := s.SpawnWarrior(call.W, g.Address(call.Off))
+		off, addr := call.Off, g.Address(call.Off)
+		if call.Huge != 0 {
+			off, addr = int(call.Huge%uint64(ref.M)), g.Address(call.Huge)
+		}
+		merr := ref.Spawn(call.W, off)
+		err := s.SpawnWarrior(call.W, addr)
 		if merr != nil {
 			c.Inc("calls_that_cannot_apply")
 			c.Inc("spawn_refused_" + map[error]string{mars.ErrIndex: "index", mars.ErrRunning: "running"}[merr])
@@ -207,9 +218,13 @@ func (r *apiRunner) apply(call apiCall) (d string) {
 			}
 		}
 	case "getmem":
-		got, ok := fromG(s.GetMem(g.Address(call.Off)))
-		if !ok || got != ref.Core[call.Off%ref.M] {
-			return fmt.Sprintf("GetMem(%d): gmars %v, model %s", call.Off, s.GetMem(g.Address(call.Off)), insnStr(ref.Core[call.Off%ref.M]))
+		addr, want := g.Address(call.Off), call.Off%ref.M
+		if call.Huge != 0 {
+			addr, want = g.Address(call.Huge), int(call.Huge%uint64(ref.M))
+		}
+		got, ok := fromG(s.GetMem(addr))
+		if !ok || got != ref.Core[want] {
+			return fmt.Sprintf("GetMem(%d): gmars %v, model %s", addr, s.GetMem(addr), insnStr(ref.Core[want]))
 		}
 	}
 	return ""
@@ -354,6 +369,9 @@ func (c *Ctx) runC13Case(idx int64, depth int, nRandom int64) {
 	h.templates = []mars.WarriorCode{tImp, tDat, tLoop}
 	for k := 0; k < 2; k++ {
 		l := r.Range(1, 4)
+		if r.Chance(1, 8) {
+			l = r.Range(m+1, 3*m+2) // longer than the core
+		}
 		t := mars.WarriorCode{Code: make([]mars.Insn, l), Start: r.Intn(l)}
 		for j := range t.Code {
 			t.Code[j] = livelyInsn(r, m)
@@ -395,6 +413,9 @@ func (c *Ctx) runC13Case(idx int64, depth int, nRandom int64) {
 			call = apiCall{Kind: "add", W: r.Intn(len(h.templates))}
 		case x < 9:
 			call = apiCall{Kind: "spawn", W: r.Range(-1, count+1), Off: offs[r.Intn(len(offs))]}
+			if r.Chance(1, 6) {
+				call.Huge = []uint64{^uint64(0), 1 << 63, 1<<63 + uint64(r.Intn(3*m)), ^uint64(0) - uint64(r.Intn(3*m)), 1 << 32}[r.Intn(5)]
+			}
 		case x < 13:
 			call = apiCall{Kind: "runcycle"}
 		case x < 15:
@@ -405,13 +426,20 @@ func (c *Ctx) runC13Case(idx int64, depth int, nRandom int64) {
 			call = apiCall{Kind: "getwarrior", W: r.Range(-1, count+1)}
 		default:
 			call = apiCall{Kind: "getmem", Off: r.Intn(3*m + 4)}
+			if r.Chance(1, 3) {
+				call.Huge = []uint64{^uint64(0), 1 << 63, 1<<63 + uint64(r.Intn(3*m)), ^uint64(0) - uint64(r.Intn(3*m)), 1 << 32, 1<<63 - 1}[r.Intn(6)]
+			}
 		}
 		switch call.Kind {
 		case "add":
 			count++
 			gm.Add(h.templates[call.W])
 		case "spawn":
-			gm.Spawn(call.W, call.Off)
+			if call.Huge != 0 {
+				gm.Spawn(call.W, int(call.Huge%uint64(h.M)))
+			} else {
+				gm.Spawn(call.W, call.Off)
+			}
 		case "runcycle":
 			gm.RunCycle()
 		case "run":
